@@ -146,6 +146,12 @@ def step (st : WSt) (ws : List String) : Option (WSt × String) :=
     let w := { st.w with store := store, live := [], sess := st.w.sess.map (fun s => { s with subs := [] }) }
     let st := { st with w := w, snap := none }
     some (st, render w st { w := w })
+  | "userstate" :: u :: rest =>
+    let c : Ctx := { w := st.w }
+    let c := (c.opUserState u (rest.head? = some "susp")).deliverRouted
+    let pre := st.w
+    let st := { st with w := c.w, snap := none }
+    some (st, render pre st c)
   | "unload" :: t :: _ =>
     let c : Ctx := { w := st.w }
     let (c, msg) := c.opUnload t
